@@ -6,7 +6,7 @@ From Coq Require Import List NArith ZArith Lia Bool Arith ZifyBool ZifyN ZifyNat
 From Coq Require Import Strings.Byte.
 Require Import BS.Bytes BS.Common BS.CommonFacts BS.Api BS.Layout BS.Format BS.FormatFacts BS.Spec BS.SpecStep BS.Sections.
 Require Import BS.FS BS.FSFacts BS.Meta BS.MetaFacts BS.Header BS.Reader BS.ReaderFacts BS.Index BS.Data BS.DataFacts BS.Seek BS.SeekFacts.
-Require Import BS.Series BS.SeriesFacts BS.RangeFacts BS.RangeRead BS.SampleFacts BS.ReadAllFacts BS.TotalFacts BS.ExtractFacts BS.World.
+Require Import BS.Series BS.SeriesFacts BS.RangeFacts BS.RangeRead BS.SampleFacts BS.ReadAllFacts BS.TotalFacts BS.ExtractFacts BS.LastMetaFacts BS.World.
 Require BSgen.Consts.
 Import ListNotations.
 Close Scope N_scope. Open Scope nat_scope.
@@ -129,23 +129,6 @@ Section LastMeta.
 Variable p : nat.
 Notation L := (p + 2).
 
-Lemma last_opt_cons {A} (x:A) (t:list A) : last_opt (x :: t) = match last_opt t with Some y => Some y | None => Some x end.
-Proof.
-  destruct t as [|y t']; [reflexivity|]. cbn [last_opt]. rewrite Layout.last_cons. reflexivity.
-Qed.
-
-Lemma last_sec_full : forall l full i,
-  full_after p full l = match last_opt (secs_from p full i l) with Some e => Some (fst e) | None => full end.
-Proof.
-  induction l as [|x t IH]; intros full i; cbn [full_after secs_from]; [reflexivity|].
-  unfold tail_bytes. destruct full as [f|].
-  - destruct (fst x - f <=? MAXD)%N; cbn [snd]; [apply IH|].
-    rewrite last_opt_cons, (IH (Some (fst x)) (i + Layout.K p + 1)).
-    destruct (last_opt (secs_from p (Some (fst x)) (i + Layout.K p + 1) t)); reflexivity.
-  - cbn [snd]. rewrite last_opt_cons, (IH (Some (fst x)) (i + Layout.K p + 1)).
-    destruct (last_opt (secs_from p (Some (fst x)) (i + Layout.K p + 1) t)); reflexivity.
-Qed.
-
 Definition meta_window : N :=
   next_multiple_of (N.max BSgen.Consts.last_meta_window (BSgen.Consts.last_meta_overlap_factor * metainfo_size p)) (line_size p).
 
@@ -163,7 +146,7 @@ Proof.
     pose proof (encode_length p (x :: t) (wf_payloads p _ W)) as EL. unfold len in Z. rewrite EL in Z.
     rewrite slots_from_lines in Z. cbn [length] in Z. lia.
   - rewrite (extract_entries_encode p l W). cbn [bind].
-    rewrite (sections_encode p l W). rewrite (last_sec_full l None 0).
+    rewrite (sections_encode p l W). rewrite (last_sec_full p l None 0).
     destruct (last_opt (secs_from p None 0 l)) as [e|] eqn:LO; [reflexivity|].
     exfalso. destruct l as [|x t]; [apply N.eqb_neq in Z; apply Z; reflexivity|].
     cbn [secs_from] in LO. rewrite last_opt_cons in LO. destruct (last_opt _); discriminate.
@@ -590,3 +573,47 @@ Proof.
   rewrite bytes_eqb_neq by congruence. reflexivity.
 Qed.
 End ReopenOwn.
+
+(* ---- the backwards search discharged (LastMetaFacts), and everything unconditional for payloads >= 4 ---- *)
+Lemma nm_p4 p s : 4 <= p -> nm_sec p s.
+Proof.
+  intros H4. unfold nm_sec, Layout.sec_got, Layout.chunk_pad.
+  assert (N0 : Layout.ncont p = 0) by (unfold Layout.ncont; destruct p as [|[|[|[|q]]]]; try lia; reflexivity).
+  rewrite N0. constructor.
+Qed.
+
+Theorem reopen_nm p fs s uhdr name popt hdropt cb l :
+  let header := params_to_text BSgen.Consts.version (N.of_nat p) ++ uhdr in
+  RepH fs s p (outer header) (outer []) l ->
+  of_name (d_file (s_data s)) = name ++ ext_data -> of_name (ix_file (d_index (s_data s))) = name ++ ext_index ->
+  (len header <= 65535)%N -> (len (encode p l) < 2^64)%N -> (N.of_nat p < 2^64)%N ->
+  (popt = None \/ popt = Some (N.of_nat p)) ->
+  (l = [] \/ tail_clean p (encode p l)) ->
+  Forall (nm_sec p) (secs_of l) ->
+  match hdropt with HdrIs e => e = uhdr | HdrAny => True end ->
+  exists s', builder_open name popt hdropt [] cb fs = (fs, Ok (s', uhdr))
+    /\ RepH fs s' p (outer header) (outer []) l /\ s_cb s' = cb
+    /\ of_name (d_file (s_data s')) = name ++ ext_data /\ of_name (ix_file (d_index (s_data s'))) = name ++ ext_index.
+Proof.
+  intros header R N1 N2 Hh H64 Hp Hopt TC NM HO.
+  apply (reopen_own p fs s uhdr name popt hdropt cb l R N1 N2 Hh H64 Hp Hopt TC); [|exact HO].
+  apply last_meta_ok; [exact (rh_wf _ _ _ _ _ _ R)|exact NM].
+Qed.
+
+(* payload sizes of 4 bytes and more: close / reopen is the identity, no condition left *)
+Theorem reopen_p4 p fs s uhdr name popt hdropt cb l : 4 <= p ->
+  let header := params_to_text BSgen.Consts.version (N.of_nat p) ++ uhdr in
+  RepH fs s p (outer header) (outer []) l ->
+  of_name (d_file (s_data s)) = name ++ ext_data -> of_name (ix_file (d_index (s_data s))) = name ++ ext_index ->
+  (len header <= 65535)%N -> (len (encode p l) < 2^64)%N -> (N.of_nat p < 2^64)%N ->
+  (popt = None \/ popt = Some (N.of_nat p)) ->
+  match hdropt with HdrIs e => e = uhdr | HdrAny => True end ->
+  exists s', builder_open name popt hdropt [] cb fs = (fs, Ok (s', uhdr))
+    /\ RepH fs s' p (outer header) (outer []) l /\ s_cb s' = cb
+    /\ of_name (d_file (s_data s')) = name ++ ext_data /\ of_name (ix_file (d_index (s_data s'))) = name ++ ext_index.
+Proof.
+  intros H4 header R N1 N2 Hh H64 Hp Hopt HO.
+  apply (reopen_nm p fs s uhdr name popt hdropt cb l R N1 N2 Hh H64 Hp Hopt); [| |exact HO].
+  - destruct l as [|x t]; [left; reflexivity|right]. apply tail_clean_p4; [exact H4|exact (rh_wf _ _ _ _ _ _ R)|discriminate].
+  - apply Forall_forall. intros sct _. apply nm_p4. exact H4.
+Qed.
